@@ -442,7 +442,9 @@ def _string_bounds_across_modules(ctx):
         exec(compile(src, f"<{name}>", "exec", dont_inherit=True), mod.__dict__)  # noqa: S102
         return mod
     x = module("vlib_c15_x", "from dataclasses import dataclass\nfrom typing import TypeVar, List\n@dataclass\nclass Payload:\n    n: int\n"
-               "PayloadT = TypeVar('PayloadT', bound='Payload')\nListT = TypeVar('ListT', bound='List[Payload]')\nCT = TypeVar('CT', 'Payload', int)\n")
+               "PayloadT = TypeVar('PayloadT', bound='Payload')\nListT = TypeVar('ListT', bound='List[Payload]')\nCT = TypeVar('CT', 'Payload', int)\n"
+               # forward references NESTED in a bound / constraint that is not a string itself (defect #76)
+               "from typing import Optional\nNestT = TypeVar('NestT', bound=Optional['Payload'])\nNestC = TypeVar('NestC', List['Payload'], int)\n")
     users = {
         "name-unbound-in-user-module": "",
         "name-bound-to-other-class": "@dataclass\nclass Payload:\n    other: str\n",
@@ -450,8 +452,12 @@ def _string_bounds_across_modules(ctx):
     for label, extra_src in users.items():
         y = module(f"vlib_c15_y_{label.replace('-', '_')}", "from dataclasses import dataclass\nfrom typing import Generic\n" + extra_src
                    + "@dataclass\nclass Box(Generic[PayloadT]):\n    item: PayloadT\n@dataclass\nclass LBox(Generic[ListT]):\n    items: ListT\n"
-                   "@dataclass\nclass CBox(Generic[CT]):\n    item: CT\n", PayloadT=x.PayloadT, ListT=x.ListT, CT=x.CT)
+                   "@dataclass\nclass CBox(Generic[CT]):\n    item: CT\n"
+                   "@dataclass\nclass NBox(Generic[NestT]):\n    item: NestT\n@dataclass\nclass NCBox(Generic[NestC]):\n    item: NestC\n",
+                   PayloadT=x.PayloadT, ListT=x.ListT, CT=x.CT, NestT=x.NestT, NestC=x.NestC)
         for bare, full, good, bad in ((y.Box, y.Box[x.Payload], {"item": {"n": 1}}, {"item": {"other": "s"}}),
+                                      (y.NBox, y.NBox[Optional[x.Payload]], {"item": {"n": 1}}, {"item": {"other": "s"}}),
+                                      (y.NCBox, y.NCBox[Union[typing.List[x.Payload], int]], {"item": [{"n": 1}]}, {"item": [{"other": "s"}]}),
                                       (y.LBox, y.LBox[typing.List[x.Payload]], {"items": [{"n": 1}]}, {"items": [{"other": "s"}]}),
                                       (y.CBox, y.CBox[Union[x.Payload, int]], {"item": {"n": 1}}, {"item": {"other": "s"}})):
             n1, n2 = attempt(normalize_type, bare), attempt(normalize_type, full)
@@ -472,7 +478,46 @@ def _string_bounds_across_modules(ctx):
                     break
 
 
-DIRECTED = {"documented-equivalences": _directed, "string-bounds-across-modules": _string_bounds_across_modules}
+def _forward_refs_aliases_metadata(ctx):
+    """Spellings outside the generated grammar that denote the same type: a ForwardRef that names its module the way `typing` does
+    (defect #75), union members that differ only in Annotated metadata with one repr() (defect #78), a bare PEP 695 generic alias and
+    the alias with its implicit parameters (defect #77; their NORMAL FORMS differ by a decision the test-suite pins: known finding)."""
+    import sys  # noqa: PLC0415
+    from dataclasses import field  # noqa: PLC0415
+    from typing import Annotated, ForwardRef  # noqa: PLC0415
+
+    def fr(name="int", module="builtins"):
+        return ForwardRef(name, module=module)
+    for a, b in ((fr(), int), (List[fr()], List[int]), (Optional[fr()], Optional[int]), (Dict[str, fr()], dict[str, int]), (Union[fr(), str], Union[str, int]),
+                 (List[fr("Decimal", "decimal")], list[Decimal]), (fr("GT", __name__), GT), (Tuple[fr("GB", __name__), int], tuple[GB[int], int])):
+        check_equivalent(ctx, ("leaf", b), a, b, 0)
+
+    @dataclass(frozen=True)
+    class Meta:
+        name: str = field(repr=False)
+    A1, A2, A3 = Annotated[int, Meta("x")], Annotated[int, Meta("y")], Annotated[int, Meta("z")]
+    for a, b in ((Union[A1, A2, List[int]], Union[A2, A1, list[int]]), (List[Union[A1, A2]], list[Union[A2, A1]]), (Dict[str, Union[A3, A1, A2]], dict[str, Union[A2, A3, A1]]),
+                 (Union[A3, A2, A1, None], Optional[Union[A1, A2, A3]])):
+        check_equivalent(ctx, ("leaf", a), a, b, 0)
+    if sys.version_info >= (3, 12):
+        ns = {}
+        exec("type AL[T] = list[T]\ntype AB[T: int] = dict[str, T]\ntype AC[K: (int, str), V] = dict[K, V]", ns)  # noqa: S102
+        for bare, full in ((ns["AL"], ns["AL"][Any]), (ns["AB"], ns["AB"][int]), (ns["AC"], ns["AC"][Union[int, str], Any])):
+            ctx.evaluated(("bare-generic-alias", show(bare)), nontrivial=True)
+            ctx.count("equivalent_pairs")
+            info = {"bare": show(bare), "explicit": show(full)}
+            b1, b2 = behaviour(bare), behaviour(full)
+            ctx.count("behaviour_comparisons")
+            if not same_behaviour(b1, b2):
+                i = next((i for i, (p, q) in enumerate(zip(b1, b2)) if not same_behaviour([p], [q])), -1)
+                ctx.violation("equivalent-hints-behave-differently:bare-generic-alias", f"{show(bare)} vs {show(full)}: outcome #{i}: {b1[i] if i >= 0 else None!r:.200} vs {b2[i] if i >= 0 else None!r:.200}", info)
+            n1, n2 = attempt(normalize_type, bare), attempt(normalize_type, full)
+            if n1.kind != "ok" or n2.kind != "ok" or n1.value != n2.value:
+                ctx.violation("equivalent-hints-normalise-differently:bare-generic-alias", f"{show(bare)} normalises to {n1!r:.160}, {show(full)} to {n2!r:.160}", info)
+
+
+DIRECTED = {"documented-equivalences": _directed, "string-bounds-across-modules": _string_bounds_across_modules,
+            "forward-refs-aliases-metadata": _forward_refs_aliases_metadata}
 from ..suite_leg import make as _suite_leg  # noqa: E402
 
 DIRECTED["suite-under-monitors"] = _suite_leg("C15")
